@@ -6,7 +6,7 @@
    overruns its item, a non-zero byte in a chunk's fill), Either (what the RFC leaves open: a chunk that
    ends without a terminator, a fill cut short by the end, a PRIV item without a prefix-length octet, fewer
    than four bytes left for an SSRC).  [wfb l]: the elements of l are bytes. *)
-From RtcpV Require Import Proofs.C10.
+From RtcpV Require Import Proofs.C10 Proofs.C10b.
 
 Theorem C10_parser_agrees_with_the_rfc_tokeniser :
   forall l : bytes,
@@ -83,3 +83,27 @@ Check C10_verdicts_occur :
   (exists rcs, sdes_ref good = MustAccept rcs /\ length rcs = 2 /\ well_framed 4 202 good = true) /\
   sdes_ref overrun = MustReject /\ sdes_ref fill = MustReject /\ sdes_ref open = Either.
 Print Assumptions C10_verdicts_occur.
+
+(* every SDES packet the independent RFC encoder can produce is judged well formed by the reference
+   tokeniser, so the must-accept clause above applies to all of them *)
+Theorem C10_every_encoder_image_is_must_accept :
+  forall (c : sdes_cfg) (n : nat),
+    sdes_wf c -> sdes_calc c = Ok n -> (N.of_nat n <= 262144)%N ->
+    sdes_ref (rfc_sdes c) = MustAccept (ref_chunks_of 4 (sdes_c_chunks c)).
+Proof. exact encoder_images_must_be_accepted. Qed.
+Check C10_every_encoder_image_is_must_accept :
+  forall (c : sdes_cfg) (n : nat),
+    sdes_wf c -> sdes_calc c = Ok n -> (N.of_nat n <= 262144)%N ->
+    sdes_ref (rfc_sdes c) = MustAccept (ref_chunks_of 4 (sdes_c_chunks c)).
+Print Assumptions C10_every_encoder_image_is_must_accept.
+
+Theorem C10_reference_tokens_of_an_image_are_its_configuration :
+  forall (cs : list chunk_cfg) (p : nat),
+    Forall (fun c => exists k, chunk_calc c = Ok k) cs ->
+    map obs_ref_chunk (ref_chunks_of p cs) = exp_chunks p cs.
+Proof. exact encoder_tokens_are_the_configuration. Qed.
+Check C10_reference_tokens_of_an_image_are_its_configuration :
+  forall (cs : list chunk_cfg) (p : nat),
+    Forall (fun c => exists k, chunk_calc c = Ok k) cs ->
+    map obs_ref_chunk (ref_chunks_of p cs) = exp_chunks p cs.
+Print Assumptions C10_reference_tokens_of_an_image_are_its_configuration.
